@@ -3,8 +3,8 @@ package rules
 import (
 	"fmt"
 	"go/constant"
-	"os"
 	"go/types"
+	"os"
 	"sort"
 	"strings"
 
